@@ -19,6 +19,7 @@ import (
 
 	"github.com/alibaba/sentinel-golang/core/base"
 	"github.com/alibaba/sentinel-golang/logging"
+	"github.com/alibaba/sentinel-golang/util"
 	"github.com/pkg/errors"
 )
 
@@ -53,6 +54,7 @@ func (mb *MetricBucket) Add(event base.MetricEvent, count int64) {
 }
 
 func (mb *MetricBucket) addCount(event base.MetricEvent, count int64) {
+	util.VerifYield("mb.add")
 	atomic.AddInt64(&mb.counter[event], count)
 }
 
@@ -67,6 +69,7 @@ func (mb *MetricBucket) Get(event base.MetricEvent) int64 {
 
 func (mb *MetricBucket) reset() {
 	for i := 0; i < int(base.MetricEventTotal); i++ {
+		util.VerifYield("mb.reset.counter")
 		atomic.StoreInt64(&mb.counter[i], 0)
 	}
 	atomic.StoreInt64(&mb.minRt, base.DefaultStatisticMaxRt)
@@ -75,8 +78,10 @@ func (mb *MetricBucket) reset() {
 
 func (mb *MetricBucket) AddRt(rt int64) {
 	mb.addCount(base.MetricEventRt, rt)
+	util.VerifYield("mb.rt.load")
 	if rt < atomic.LoadInt64(&mb.minRt) {
 		// Might not be accurate here.
+		util.VerifYield("mb.rt.store")
 		atomic.StoreInt64(&mb.minRt, rt)
 	}
 }
@@ -87,8 +92,10 @@ func (mb *MetricBucket) MinRt() int64 {
 
 func (mb *MetricBucket) UpdateConcurrency(concurrency int32) {
 	cc := concurrency
+	util.VerifYield("mb.conc.load")
 	if cc > atomic.LoadInt32(&mb.maxConcurrency) {
 		// Might not be accurate here.
+		util.VerifYield("mb.conc.store")
 		atomic.StoreInt32(&mb.maxConcurrency, cc)
 	}
 }
